@@ -121,52 +121,68 @@ fn drive<C: Ctxt>(c: C) -> Option<u64> {
     r
 }
 
-/// &C, Option<C>, Box<C>, Arc<C>, dyn ErasedCtxt (inline and boxed frame storage) forward every operation exactly
-/// once, to the same frame, and show the inner context's current properties.
+/// &C and Option<C> forward every operation exactly once, to the same frame, and show the inner context's
+/// current properties; a None context is inert.
 #[kani::proof]
 #[kani::unwind(10)]
-fn c03_ctxt_forwarders_contract() {
+fn c03_ctxt_ref_option_forwarders() {
     let amb: u64 = kani::any();
-    let which: u8 = kani::any();
-    kani::assume(which <= 5);
-    match which {
-        0 => {
-            let c = OracleCtxt::new(kani::any(), amb);
-            assert!(drive(&c) == Some(amb));
-            expect(&c, &[OPEN, ENTER, EXIT, CLOSE]);
-        }
-        1 => {
-            let c = Some(OracleCtxt::new(kani::any(), amb));
-            assert!(drive(&c) == Some(amb));
-            expect(c.as_ref().unwrap(), &[OPEN, ENTER, EXIT, CLOSE]);
-        }
-        2 => {
-            let c = Box::new(OracleCtxt::new(kani::any(), amb));
-            assert!(drive(&c) == Some(amb));
-            expect(&c, &[OPEN, ENTER, EXIT, CLOSE]);
-        }
-        3 => {
-            let c = std::sync::Arc::new(OracleCtxt::new(kani::any(), amb));
-            assert!(drive(c.clone()) == Some(amb));
-            expect(&c, &[OPEN, ENTER, EXIT, CLOSE]);
-        }
-        4 => {
-            // erased, frame stored inline (1 byte)
-            let c = OracleCtxt::new(kani::any(), amb);
-            let e: &dyn ErasedCtxt = &c;
-            assert!(drive(e) == Some(amb));
-            expect(&c, &[OPEN, ENTER, EXIT, CLOSE]);
-        }
-        _ => {
-            // erased, frame boxed (40 bytes)
-            let c = BigCtxt(OracleCtxt::new(kani::any(), amb));
-            let e: &dyn ErasedCtxt = &c;
-            assert!(drive(e) == Some(amb));
-            expect(&c.0, &[OPEN, ENTER, EXIT, CLOSE]);
-        }
+    if kani::any() {
+        let c = OracleCtxt::new(kani::any(), amb);
+        assert!(drive(&c) == Some(amb));
+        expect(&c, &[OPEN, ENTER, EXIT, CLOSE]);
+    } else {
+        let c = Some(OracleCtxt::new(kani::any(), amb));
+        assert!(drive(&c) == Some(amb));
+        expect(c.as_ref().unwrap(), &[OPEN, ENTER, EXIT, CLOSE]);
     }
-    // a None context is inert
     let none: Option<OracleCtxt> = None;
     assert!(drive(&none) == None);
+    kani::cover!(true);
+}
+
+/// Box<C> forwards every operation exactly once, in order, to the same frame (scalar phase oracle).
+#[kani::proof]
+#[kani::unwind(10)]
+fn c03_ctxt_box_forwarder() {
+    let amb: u64 = kani::any();
+    let c = Box::new(PhaseCtxt::new(amb));
+    assert!(drive(&c) == Some(amb));
+    assert!(c.phase.get() == 4);
+    kani::cover!(true);
+}
+
+/// Arc<C> forwards every operation exactly once, in order, to the same frame (scalar phase oracle).
+#[kani::proof]
+#[kani::unwind(10)]
+fn c03_ctxt_arc_forwarder() {
+    let amb: u64 = kani::any();
+    let c = std::sync::Arc::new(PhaseCtxt::new(amb));
+    assert!(drive(c.clone()) == Some(amb));
+    assert!(c.phase.get() == 4);
+    kani::cover!(true);
+}
+
+/// dyn ErasedCtxt with the frame stored INLINE in ErasedFrame (1 byte): same operations, same frame.
+#[kani::proof]
+#[kani::unwind(10)]
+fn c03_erased_ctxt_inline_frame() {
+    let amb: u64 = kani::any();
+    let c = OracleCtxt::new(kani::any(), amb);
+    let e: &dyn ErasedCtxt = &c;
+    assert!(drive(e) == Some(amb));
+    expect(&c, &[OPEN, ENTER, EXIT, CLOSE]);
+    kani::cover!(true);
+}
+
+/// dyn ErasedCtxt with the frame BOXED by ErasedFrame (40 bytes): same operations, same frame, payload intact.
+#[kani::proof]
+#[kani::unwind(10)]
+fn c03_erased_ctxt_boxed_frame() {
+    let amb: u64 = kani::any();
+    let c = BigCtxt(OracleCtxt::new(kani::any(), amb));
+    let e: &dyn ErasedCtxt = &c;
+    assert!(drive(e) == Some(amb));
+    expect(&c.0, &[OPEN, ENTER, EXIT, CLOSE]);
     kani::cover!(true);
 }
